@@ -1,4 +1,5 @@
 import UtilModel.Core.Driver
+import UtilModel.Core.DriverH
 import UtilModel.Routine.Model
 import UtilModel.Routine.Monitors
 /-! Development driver for this component only:
@@ -7,7 +8,7 @@ open UtilModel
 
 def main (args : List String) : IO UInt32 :=
   driverMain [
-    mkEntry "routine" Routine.model Routine.Obs.parse
+    mkEntryH "routine" Routine.model Routine.Obs.parse
       [MonEntry.ofMonitor "C04x" Routine.monC04x, MonEntry.ofMonitor "C04" Routine.monC04,
-       MonEntry.ofMonitor "C05" Routine.monC05, MonEntry.ofMonitor "C14" Routine.monC14] (cap := 4000)
+       MonEntry.ofMonitor "C05" Routine.monC05, MonEntry.ofMonitor "C14" Routine.monC14] (cap := 20000)
   ] args
